@@ -197,3 +197,32 @@ func init() {
 		}
 	}
 }
+
+func init() {
+	// arity sweep for sub-builds (C20): C14's scenarios at depth 2 (quick) / 3 (thorough), single threaded
+	SubModes["arity"] = func(args []string) *SubResult {
+		tier := Quick
+		if len(args) > 0 && args[0] == "thorough" {
+			tier = Thorough
+		}
+		chk := Registry["C14"](tier)
+		r := &SubResult{}
+		seen := map[string]bool{}
+		for _, sc := range chk.Scenarios {
+			sc.Depth--
+			rep := engine.Explore(sc, engine.Options{Workers: 1})
+			r.Cases += int(rep.Histories)
+			r.Steps += int(rep.Transitions)
+			for _, f := range rep.Found {
+				k := f.V.Kind + "|" + f.OpKind
+				if !seen[k] && len(r.Violations) < 10 {
+					seen[k] = true
+					v := f.V
+					v.Msg = fmt.Sprintf("%s: %s (history %v)", f.Scenario, v.Msg, f.Hist)
+					r.Violations = append(r.Violations, v)
+				}
+			}
+		}
+		return r
+	}
+}
